@@ -27,6 +27,8 @@ type Sched struct {
 	Seed       uint64  `json:"seed"`
 	PreemptPPM uint32  `json:"preempt_ppm,omitempty"`
 	StallPPM   uint32  `json:"stall_ppm,omitempty"`
+	HotPPM     uint32  `json:"hot_ppm,omitempty"` // preemption probability in front of a record-guard acquisition
+	HoldMax    uint32  `json:"hold_max,omitempty"` // a preempted goroutine stays preempted for up to this many scheduler steps
 	Explicit   bool    `json:"explicit,omitempty"`
 	Steps      []int64 `json:"steps,omitempty"`
 }
